@@ -2,6 +2,8 @@
 from __future__ import annotations
 
 from vf.harness.common import *  # noqa
+from fractions import Fraction
+
 from vf.engine import sched
 
 PROPERTY = "C09"
@@ -32,14 +34,18 @@ def scn_timeouts(ctx):
     eps = ctx.eps
     ev = ctx.ev
     me = ManualExecutor(ev)
-    Tdef = ctx.real("Tdef", lo=0)
+    Tdef = ctx.real("Tdef", lo=0, hi=10 ** 6)
     ctx.assume(s_or(Tdef == 0, Tdef >= SEP * 2 * eps))
     te = TimeoutExecutor(me, Tdef) if form == "executor" else None
     horizon = Tdef + 1
     specs = []
     for i in range(n):
-        T = ctx.real("T%d" % i, lo=0)
-        ctx.assume(s_or(T == 0, T >= SEP * 2 * eps))
+        if p.get("huge") and i == 0:
+            # a timeout that means "never": beyond what a timed wait accepts (threading.TIMEOUT_MAX ~ 9.2e9 s)
+            T = SReal(Fraction(10 ** 10))
+        else:
+            T = ctx.real("T%d" % i, lo=0, hi=10 ** 6)
+            ctx.assume(s_or(T == 0, T >= SEP * 2 * eps))
         s = ctx.real("s%d" % i, lo=0)
         c = ctx.real("c%d" % i, lo=0)
         percall = (ctx.choice(2, "percall%d" % i) if p.get("percall_choice", True) else 1) if form == "executor" else 1
@@ -169,7 +175,7 @@ def scn_timeouts(ctx):
     return True
 
 
-ASSUMPTIONS = ["timeouts are 0 or >= 128*eps; a delegate never completes, or completes >= 64*eps before its deadline, >= 64*eps after it, or exactly at it (race resolved by the schedule), or is cancelled by someone else well before",
+ASSUMPTIONS = ["timeouts are 0 or >= 128*eps and <= 10^6 s, plus one program with a timeout of 10^10 s (beyond threading.TIMEOUT_MAX); a delegate never completes, or completes >= 64*eps before its deadline, >= 64*eps after it, or exactly at it (race resolved by the schedule), or is cancelled by someone else well before",
                "never-early is asserted against the earliest possible creation instant (start of the submit call); exactly-then as cancel <= (return of submit) + T + 40*eps"]
 BOUNDS_TEXT = {"quick": "1 future (executor and f_timeout forms, P<=1); 2 futures from 2 submitter threads with symbolic instants (P=0)",
                "thorough": "1 future P<=2; 2 futures P<=1; 3 futures P=0; adversarial clock (each read advances by an arbitrary step in (0, 1000 s]) for never-early"}
@@ -182,7 +188,8 @@ def plan(tier, seed):
     if tier == "quick":
         return [dict(scenario=T, params=dict(n=1, form="executor", regimes=[0, 1, 2, 3, 4, 5]), bounds=dict(P=1)),
                 dict(scenario=T, params=dict(n=1, form="f_timeout"), bounds=dict(P=0)),
-                dict(scenario=T, params=dict(n=2, form="executor", submitters=1, regimes=[0, 1, 3], percall_choice=False), bounds=dict(P=0))]
+                dict(scenario=T, params=dict(n=2, form="executor", submitters=1, regimes=[0, 1, 3], percall_choice=False), bounds=dict(P=0)),
+                dict(scenario=T, params=dict(n=2, form="executor", submitters=1, regimes=[0, 1], percall_choice=False, huge=True), bounds=dict(P=0))]
     return [dict(scenario=T, params=dict(n=1, form="executor"), bounds=dict(P=2)),
             dict(scenario=T, params=dict(n=1, form="f_timeout"), bounds=dict(P=2)),
             dict(scenario=T, params=dict(n=1, form="executor", regimes=[0, 1, 2]), bounds=dict(P=1, adversarial=True)),
